@@ -60,6 +60,17 @@ Theorem C17_all_certificates_fail_raises :
 Proof. exact all_certs_unusable_raises. Qed.
 Print Assumptions C17_all_certificates_fail_raises.
 
+(* a configured verify_encrypt_cert_assertion / _advice callable: a response whose assertion (advice) was to be
+   encrypted is emitted only if the certificate handed in is the one the callable accepts *)
+Theorem C17_verified_certificate_used :
+  forall g i t k0, idp_build g i = Ok t ->
+    (g_encrypt_assertion g = true -> g_verify_assertion g = Some k0 -> g_cert_assertion g = CGiven k0 true) /\
+    (g_pefim g = true -> g_verify_advice g = Some k0 -> g_cert_advice g = CGiven k0 true).
+Proof.
+  intros g i t k0 H. split; intros A B; [exact (verified_cert_used true g i t k0 H A B)|exact (verified_advice_cert_used true g i t k0 H A B)].
+Qed.
+Print Assumptions C17_verified_certificate_used.
+
 (* the code before proposed_fix/C17-1: PEFIM + sign_assertion without sign_response / encrypt_assertion
    returned before anything was encrypted — the attribute assertion went out in clear *)
 Theorem C17_confidential_advice_before_fix_refuted :
